@@ -26,7 +26,10 @@ import fam_parsesig
 
 ID = "C03"
 COQ_PROP = "C03"
-FAMILIES = [(fam_emitast, 1500, 20000), (fam_parsesig, 1500, 20000), (fam_c03, 1200, 15000)]
+import fam_docemit  # noqa: E402  (the function docstring is written by to_docstring / fill and read by the ReST parser)
+import fam_docparse  # noqa: E402
+
+FAMILIES = [(fam_emitast, 1500, 20000), (fam_parsesig, 1500, 20000), (fam_c03, 1200, 15000), (fam_docemit, 1000, 12000), (fam_docparse, 1000, 12000)]
 TECHNIQUE = ("Coq proof (composition of the emit.function model, the unparse/re-parse step and the parse.function model, "
              "unbounded in the number of parameters: names/order, kind, **kwargs, positional vs keyword-only default "
              "alignment, inline annotations, defaults per value class, return entry; under guard_C03 and the named "
